@@ -225,6 +225,7 @@ type chain struct {
 	files    []int    // indices into Lineage.Poms, leaf first
 	hasPar   bool     // the leaf has a <parent>
 	bom      bool     // an imported BOM's chain
+	shadow   []string // placeholders ${name} of properties named like a built-in, declared in this chain
 	defined  []string // property names with an unconditional definition somewhere in the chain
 	props    []string // ordered table: a value may only mention earlier names
 	multiDef map[string]bool
@@ -462,10 +463,61 @@ func (g *genState) fillProps(c *chain) {
 			}
 		}
 	}
+	// Properties named like built-in expressions, in about a third of the chains.
+	if rng.Intn(3) == 0 {
+		for k := 1 + rng.Intn(2); k > 0; k-- {
+			g.addBuiltinNamedProp(c)
+		}
+	}
+}
+
+// Property names that coincide with built-in expressions. Maven (asked: see
+// witnesses) looks project.* / pom.* up in the model first, so a property of
+// such a name never shadows the built-in unless the model has no value (no
+// <parent>); the bare names are ordinary properties and do shadow.
+var (
+	builtinNamesPrefixed = []string{"project.version", "project.groupId", "pom.version", "pom.groupId", "project.parent.version", "project.parent.groupId", "pom.parent.version"}
+	builtinNamesBare     = []string{"version", "groupId", "parent.version", "parent.groupId"}
+)
+
+// addBuiltinNamedProp declares, somewhere in the chain (a main section or a
+// profile), a property whose name is a built-in expression, and remembers the
+// placeholder so that dependency versions of the chain use it.
+func (g *genState) addBuiltinNamedProp(c *chain) {
+	rng := g.rng
+	name, kind := pick(rng, builtinNamesPrefixed), "prefixed"
+	if rng.Intn(3) == 0 {
+		name, kind = pick(rng, builtinNamesBare), "bare"
+	}
+	val := pick(rng, []string{"0.0.1-LEGACY", "99", "8.8.8", "shadow.g", "6.6-x"})
+	f := c.files[rng.Intn(len(c.files))]
+	// parent.* without a <parent> has no built-in value: only an unconditional
+	// declaration keeps the placeholder resolvable.
+	needMain := strings.Contains(name, "parent.") && !c.hasPar
+	if !needMain && rng.Intn(3) == 0 {
+		pr := g.profileFor(c, f)
+		pr.Props = append(pr.Props, [2]string{name, val})
+		g.tag("prop:named-like-builtin:in-profile")
+	} else {
+		g.l.Poms[f].Props = append(g.l.Poms[f].Props, [2]string{name, val})
+		if f != c.files[0] {
+			g.tag("prop:named-like-builtin:in-ancestor")
+		}
+	}
+	if c.bom {
+		g.tag("prop:named-like-builtin:in-bom")
+	}
+	g.tag("prop:named-like-builtin:" + kind)
+	c.shadow = append(c.shadow, "${"+name+"}\x00"+kind)
 }
 
 func (g *genState) version(c *chain) string {
 	rng := g.rng
+	if len(c.shadow) > 0 && rng.Intn(4) == 0 {
+		ph, kind, _ := strings.Cut(pick(rng, c.shadow), "\x00")
+		g.tag("prop:named-like-builtin:" + kind + "-used")
+		return ph
+	}
 	switch k := rng.Intn(10); {
 	case k < 4 && len(c.props) > 0:
 		g.tag("version:property")
